@@ -1102,3 +1102,29 @@ func callsReflectSelectHelper(v ssa.Value) bool {
 	})
 	return res
 }
+
+// C12.assert-nil-safe: a value that came through reflection (reflect.Value.Interface()) or any other `any` is converted back
+// to the element type parameter T only with the two-result form of the type assertion. T may be instantiated with an interface
+// type and the value sent may be nil: item.Interface() is then a nil interface and a single-result assertion panics, while the
+// 1/2/3-input paths forward that value (F13).
+var _ = late(func() {
+	p := properties["C12"]
+	p.Rules = append(p.Rules, &Rule{ID: "C12.assert-nil-safe", Floor: 1, Clause: "in package chans every type assertion to a type parameter (an element type that may be an interface type, whose nil value arrives as a nil interface from reflect.Value.Interface()) uses the two-result form: the single-result form panics on a nil value that the non-reflective paths forward",
+		Run: func(c *Ctx, r *R) {
+			for _, fn := range c.funcsOfPkg("chans") {
+				name := c.nameOf(fn)
+				n := 0
+				instrs(fn, func(b *ssa.BasicBlock, i int, in ssa.Instruction) {
+					ta, ok := in.(*ssa.TypeAssert)
+					if !ok {
+						return
+					}
+					if _, isTP := ta.AssertedType.(*types.TypeParam); !isTP {
+						return
+					}
+					n++
+					r.ok(ta.CommaOk, name+"|assert#"+itoa(n), ta.Pos(), "single-result assertion to the element type parameter on "+path(ta.X)+": it panics when the value received is a nil interface (element type instantiated with an interface type), although that value must be forwarded like any other")
+				})
+			}
+		}})
+})
